@@ -13,7 +13,11 @@ use vrp_core::solver::processing::{ClusterConfigExtraProperty, ReservedTimesExtr
 
 pub(super) fn map_to_problem_with_approx(problem: ApiProblem) -> Result<CoreProblem, MultiFormatError> {
     let coord_index = CoordIndex::new(&problem);
-    let matrices = if coord_index.has_indices() { vec![] } else { create_approx_matrices(&problem) };
+    // NOTE approximation needs at least one profile and positive speeds: let validation and matrix checks report it
+    let has_valid_speeds = !problem.fleet.profiles.is_empty()
+        && problem.fleet.profiles.iter().all(|profile| profile.speed.is_none_or(|speed| speed > 0.));
+    let matrices =
+        if coord_index.has_indices() || !has_valid_speeds { vec![] } else { create_approx_matrices(&problem) };
     map_to_problem(problem, matrices, coord_index)
 }
 
